@@ -9,6 +9,9 @@ import GqlVerif.Proofs.C01VariantSpreadG
 import GqlVerif.Proofs.C01RustSpread
 import GqlVerif.Proofs.C01DenyTreeClass
 import GqlVerif.Proofs.C01DenyFragWitness
+import GqlVerif.Proofs.C01MixedE
+import GqlVerif.Proofs.C01MixedF
+import GqlVerif.Proofs.C01MixedG
 open GqlVerif.C03
 #print axioms ok_iff_accepts
 #print axioms null_at_non_null_rejected
@@ -75,3 +78,8 @@ open GqlVerif.C03
 #print axioms GqlVerif.C01.Deny.fragD_precise_iff
 #print axioms GqlVerif.C01.Deny.wd_precise
 #print axioms GqlVerif.C01.Deny.fd_precise
+-- MixedOp / MixedOp2 (Proofs/C01Mixed*.lean, P38): exact acceptance
+#print axioms GqlVerif.C01M.mixed_precise_iff
+#print axioms GqlVerif.C01M.mixed_precise
+#print axioms GqlVerif.C01M.mixed2_precise_iff
+#print axioms GqlVerif.C01M.mx_precise
